@@ -4,6 +4,8 @@
 #include <fstream>
 #include <string>
 #include <stdexcept>
+#include <vector>
+#include <functional>
 
 namespace VerifControls{
 
@@ -26,6 +28,18 @@ inline int control_reopen(std::string const &first, std::string const &second){
     return (attempt(first) or attempt(second)) ? 1 : 0;
 }
 
+
+// C19-D5.reentrant / C20-D8.reentrant: work storage with static (thread) duration in a routine that calls user code
+inline double control_static_work(std::function<double(std::vector<double> const&)> const &callback, size_t n){
+    static thread_local std::vector<double> work;
+    work.assign(n, 1.0);
+    double r = callback(work); // a nested call made by the callback overwrites work
+    return r + work[0];
 }
 
-int verif_controls_anchor(){ return VerifControls::control_reopen("a", "b"); }
+}
+
+int verif_controls_anchor(){
+    return VerifControls::control_reopen("a", "b")
+         + static_cast<int>(VerifControls::control_static_work([](std::vector<double> const &w)->double{ return w[0]; }, 2));
+}
